@@ -105,11 +105,22 @@ def lookup_df_cases(run, n):
             ids = sorted(ids)
         nids = [UANodeId(rng.choice([0, 1, 2]), NodeIdType.NUMERIC, str(1000 + j)) for j in range(k)]
         nodes = pd.DataFrame({"id": ids, "NodeId": pd.Series(nids, dtype=object), "BrowseName": ["n%d" % j for j in range(k)]})
+        repeated = False
+        if rng.random() < 0.35:
+            # a node defined twice (overlapping documents): the same id and NodeId on two rows — still ONE lookup entry per id
+            j = rng.randrange(k)
+            nodes = pd.concat([nodes, nodes.iloc[[j]].assign(BrowseName="again")], ignore_index=True)
+            repeated = True
         if rng.random() < 0.5:
-            nodes.index = rng.sample(range(100, 200), k)
-        run.case({"lookup_df": i, "ids": ids}, nontrivial=ids != list(range(k)), tag="lookup_df")
+            nodes.index = rng.sample(range(100, 200), len(nodes))
+        run.case({"lookup_df": i, "ids": ids, "a_row_repeated": repeated}, nontrivial=ids != list(range(k)), tag="lookup_df" + (":repeated-row" if repeated else ""))
         try:
             lk = create_lookup_df(nodes)
+            if not lk.index.is_unique:
+                run.violation({"lookup_df": {"ids": ids, "a_row_repeated": repeated}},
+                              {"what": "create_lookup_df(nodes) holds more than one entry for an id", "impl": sorted(int(x) for x in lk.index[lk.index.duplicated()])[:5],
+                               "call": "opcua_tools.nodeset_generator.create_lookup_df"})
+                return
             got = {x: lk.loc[x, "uniques"] for x in ids}
             extra = [x for x in lk.index.tolist() if x not in ids]
         except Exception as e:  # noqa: BLE001
@@ -163,6 +174,11 @@ def graph_tables(run, sc, n):
                             run.violation(case, {"what": "get_normalized_nodes_df(%r): column %s of node %r is %r, the document names %r" % (uri, col, k, got, want),
                                                  "call": "UAGraph.get_normalized_nodes_df(namespace_uri)"})
                             return
+                # replacing ids by lookup entries neither adds nor drops rows (a node defined twice stays two rows, it does not become four)
+                rows_in = len(G.nodes) if uri is None else int((G.nodes["ns"] == G.namespaces.index(uri)).sum())
+                if len(t) != rows_in:
+                    run.violation(case, {"what": "get_normalized_nodes_df(%r) has %d rows for %d node rows" % (uri, len(t), rows_in), "call": "UAGraph.get_normalized_nodes_df(namespace_uri)"})
+                    return
                 want_keys = {k for k in exp if uri is None or k[0] == uri}
                 if seen != want_keys:
                     run.violation(case, {"what": "get_normalized_nodes_df(%r) rows != nodes of that namespace" % uri, "missing": sorted(want_keys - seen)[:5], "extra": sorted(seen - want_keys)[:5]})
